@@ -436,14 +436,15 @@ var fieldRe = regexp.MustCompile(`'([^']*)' field`)
 // classifyDecodeErr maps an Unmarshal error to (kind, innermost named key).
 func classifyDecodeErr(err error) string {
 	msg := err.Error()
+	if strings.Contains(msg, "cannot unmarshal oneOf object") {
+		// no alternative accepted the document; the text goes on with why the LAST one did not
+		return "err(oneof)"
+	}
 	if m := keyMissingRe.FindAllStringSubmatch(msg, -1); m != nil {
 		return "err(missing," + hx(m[len(m)-1][1]) + ")"
 	}
 	if strings.Contains(msg, "unknown discriminator") {
 		return "err(discriminator)"
-	}
-	if strings.Contains(msg, "cannot unmarshal oneOf object") {
-		return "err(oneof)"
 	}
 	if m := fieldRe.FindAllStringSubmatch(msg, -1); m != nil {
 		return "err(type," + hx(m[len(m)-1][1]) + ")"
